@@ -1,7 +1,7 @@
 SPECIFICATION Spec
 CONSTANT Seeds = {1, 2}
-CONSTANT Inputs = {1, 2, 3, 4, 5}
-CONSTANT MaxOps = 3
+CONSTANT Inputs = {1, 2, 3}
+CONSTANT MaxOps = 4
 CONSTANT Mutant = "none"
 CONSTANT KeepHist = TRUE
 INVARIANT OutputFunctionOfSeed
